@@ -152,11 +152,30 @@ def delete(data: dict[str, Any], cand: list[Any]) -> dict[str, Any]:
 _MISSING = object()
 
 
+def _scope_get(scope: Any, key: Any) -> Any:
+    """The innermost layer that has `key` decides - a nil binding is a binding.  Walks the layers of the
+    engine's chain maps itself instead of trusting their `__getitem__`."""
+    maps = getattr(scope, "_maps", None)
+    if maps is None:
+        maps = getattr(scope, "maps", None)  # collections.ChainMap
+    if maps is not None:
+        for m in list(maps):
+            got = _scope_get(m, key)
+            if got is not _MISSING:
+                return got
+        return _MISSING
+    try:
+        if isinstance(scope, dict):
+            return scope[key] if key in scope else _MISSING
+        return scope[key]
+    except (KeyError, TypeError, IndexError):
+        return _MISSING
+
+
 def ref_lookup(scope: Any, path: list[Any]) -> Any:
     """Independent resolution of a path (str/int segments) in the render scope."""
-    try:
-        obj = scope[path[0]]
-    except (KeyError, TypeError, IndexError):
+    obj = _scope_get(scope, path[0])
+    if obj is _MISSING:
         return _MISSING
     if isinstance(obj, Undefined):
         return _MISSING  # an undefined value bound to a name (e.g. passed as an argument) propagates
